@@ -29,6 +29,9 @@ def leak_site(err):
     return "?"
 
 
+TOOL_CFGS = ("hl2-lp2", "hl2-lp3", "hl2-scm1-palette0", "hl2-scm1", "hl2-tiles", "hl2-superres-grain")
+
+
 def enc_cases(tier):
     cfgs = [("hl0", {"hierarchical_levels": 0}), ("hl3", {"hierarchical_levels": 3}), ("hl3-overlays", {"hierarchical_levels": 3, "enable_overlays": 1}),
             ("hl3-norecon", {"hierarchical_levels": 3, "recon_enabled": 0}), ("hl3-10bit", {"hierarchical_levels": 3, "encoder_bit_depth": 10}),
@@ -40,7 +43,6 @@ def enc_cases(tier):
             ("hl2-scm1", {"hierarchical_levels": 2, "screen_content_mode": 1, "content": "screen"}),
             ("hl2-tiles", {"hierarchical_levels": 2, "tile_rows": 1, "tile_columns": 1, "w": 128, "h": 128}),
             ("hl2-superres-grain", {"hierarchical_levels": 2, "superres_mode": 1, "superres_denom": 12, "superres_kf_denom": 12, "film_grain_denoise_strength": 10})]
-TOOL_CFGS = ("hl2-lp2", "hl2-lp3", "hl2-scm1-palette0", "hl2-scm1", "hl2-tiles", "hl2-superres-grain")
     if tier == "quick":
         cfgs = cfgs[:3] + cfgs[5:]
     out = []
